@@ -80,14 +80,17 @@ func c11Docs() []c11Base {
 		{"input-object-variable-default", &world.Doc{Ops: []*world.Op{{Type: "query", Name: "Q",
 			Vars: []world.VarDef{{Name: "f", Type: "Filter", HasDefault: true, Default: map[string]interface{}{"min": 1}}, {Name: "l", Type: "[Filter]", HasDefault: true, Default: []interface{}{map[string]interface{}{"min": 2}}}},
 			Sels: []*world.Sel{F("pick").WithArgs(A("in", V("f")), A("fs", V("l"))), F("a", F("pick").WithArgs(A("in", V("f"))))}}}},
-			[]c11Call{{"Q", nil}, {"Q", map[string]interface{}{"f": map[string]interface{}{"min": 3.0}}}, {"Q", map[string]interface{}{}}}},
+			[]c11Call{{"Q", nil}, {"Q", map[string]interface{}{"f": map[string]interface{}{"min": 3.0}}}, {"Q", map[string]interface{}{}},
+				// round 10: a variable given as an explicit null (the key is there, the value is nil) beside one left out
+				{"Q", map[string]interface{}{"f": nil}}, {"Q", map[string]interface{}{"f": nil, "l": nil}}}},
 		{"list-variable-defaults", &world.Doc{Ops: []*world.Op{{Type: "query", Name: "Q",
 			Vars: []world.VarDef{{Name: "ids", Type: "[ID!]", HasDefault: true, Default: []interface{}{1, 2, 3}}, {Name: "ss", Type: "[String]", HasDefault: true, Default: []interface{}{"a", nil}},
 				{Name: "m", Type: "[[Int]]", HasDefault: true, Default: []interface{}{[]interface{}{1}, []interface{}{2, 3}}}, {Name: "one", Type: "[ID!]", HasDefault: true, Default: 7},
 				{Name: "e", Type: "Color", HasDefault: true, Default: world.EnumLit("GREEN")}},
 			Sels: []*world.Sel{F("pick").WithArgs(A("ids", V("ids")), A("ss", V("ss")), A("m", V("m")), A("e", V("e"))), F("a", F("pick").WithArgs(A("ids", V("one")), A("ss", V("ss")))),
 				F("kids", F("pick").WithArgs(A("ids", V("ids")), A("m", V("m"))))}}}},
-			[]c11Call{{"Q", nil}, {"Q", map[string]interface{}{"ids": []interface{}{"x"}}}, {"Q", map[string]interface{}{"m": []interface{}{[]interface{}{5.0}}, "e": "RED"}}, {"Q", map[string]interface{}{}}}},
+			[]c11Call{{"Q", nil}, {"Q", map[string]interface{}{"ids": []interface{}{"x"}}}, {"Q", map[string]interface{}{"m": []interface{}{[]interface{}{5.0}}, "e": "RED"}}, {"Q", map[string]interface{}{}},
+				{"Q", map[string]interface{}{"ids": nil, "m": nil, "one": nil, "e": nil}}}},
 		{"args-out-of-order", world.Q(
 			F("echo").WithArgs(A("b", true), A("s", "x")), F("tri").WithArgs(A("c", "3"), A("a", "1"), A("b", "2")),
 			F("a", F("echo").WithArgs(A("b", false), A("s", "y")), F("tri").WithArgs(A("b", "B"), A("c", "C"), A("a", "A")))),
